@@ -498,17 +498,24 @@ func checkRepopulate(c *core.Ctx) {
 		name  string
 		call  bool
 		known bool
+		// the candidate descriptor carries a type function instead of a static signature
+		typefn bool
 		// which criterion fails in the descriptor tried ("" = all agree)
 		fails string
 	}
 	scens := []scen{
-		{"not a function call", false, false, ""},
-		{"unknown function name", true, false, ""},
-		{"known, descriptor agrees", true, true, ""},
-		{"known, arity differs", true, true, "arity"},
-		{"known, strictness differs", true, true, "strict"},
-		{"known, output type differs", true, true, "output"},
-		{"known, an argument type differs", true, true, "arg"},
+		{"not a function call", false, false, false, ""},
+		{"unknown function name", true, false, false, ""},
+		{"static signature, descriptor agrees", true, true, false, ""},
+		{"static signature, arity differs", true, true, false, "arity"},
+		{"static signature, strictness differs", true, true, false, "strict"},
+		{"static signature, output type differs", true, true, false, "output"},
+		{"static signature, an argument type differs", true, true, false, "arg"},
+		{"type function, accepts the arguments", true, true, true, ""},
+		{"type function, strictness differs", true, true, true, "strict"},
+		{"type function, rejects the arguments", true, true, true, "typefn"},
+		{"type function, gives another output type", true, true, true, "output"},
+		{"type function, but a static signature was received", true, true, true, "arity"},
 	}
 	for _, sc := range scens {
 		sc := sc
@@ -516,11 +523,17 @@ func checkRepopulate(c *core.Ctx) {
 		in.MaxPaths = 4000
 		consulted := map[string]bool{}
 		in.Hooks.Field = func(st *absint.State, base absint.Val, sel string) (absint.Val, bool) {
-			if sel == "ExpressionType" && base.Canon() == pname {
+			switch {
+			case sel == "ExpressionType" && base.Canon() == pname:
 				if sc.call {
 					return fcConst, true
 				}
 				return varConst, true
+			case sel == "Strict" && strings.Contains(base.Canon(), "Descriptors["):
+				return absint.Bool(true), true
+			case sel == "Strict":
+				consulted["strict"] = true
+				return absint.Bool(sc.fails != "strict"), true
 			}
 			return nil, false
 		}
@@ -532,10 +545,12 @@ func checkRepopulate(c *core.Ctx) {
 			return nil, false
 		}
 		in.Hooks.Loop = func(st *absint.State, loop ast.Stmt) *absint.LoopSpec {
-			if rs, ok := loop.(*ast.RangeStmt); ok && strings.Contains(core.ExprStr(rs.X), "Descriptors") {
-				if sc.fails == "none" {
-					return &absint.LoopSpec{Cases: []string{"D"}, MaxIter: 0, RefStep: func(ref, cs string) string { return "" }}
-				}
+			x := ""
+			switch l := loop.(type) {
+			case *ast.RangeStmt:
+				x = core.ExprStr(l.X)
+			}
+			if strings.Contains(x, "Descriptors") {
 				return &absint.LoopSpec{Cases: []string{"D"}, MaxIter: 1, MinIter: 1, RefStep: func(ref, cs string) string { return "" }}
 			}
 			return &absint.LoopSpec{Cases: []string{"ARG"}, MaxIter: 1, MinIter: 1, RefStep: func(ref, cs string) string { return "" }}
@@ -544,23 +559,30 @@ func checkRepopulate(c *core.Ctx) {
 			switch {
 			case strings.HasPrefix(atom, "ok:DETAILS"):
 				return sc.known, true
+			case strings.HasPrefix(atom, "(&") && strings.HasSuffix(atom, ".TypeFn == nil)"):
+				return !sc.typefn, true
+			case strings.HasPrefix(atom, "(&") && strings.HasSuffix(atom, " == nil)"):
+				return false, true // the address of a table entry
+			case strings.Contains(atom, "value:TypeFn(") && strings.HasSuffix(atom, ".1"):
+				consulted["typefn"] = true
+				return sc.fails != "typefn", true
 			case strings.Contains(atom, "len(") && strings.Contains(atom, "ArgumentTypes") && strings.Contains(atom, "=="):
 				consulted["arity"] = true
 				return sc.fails != "arity", true
-			case strings.Contains(atom, ".Strict") && strings.Contains(atom, "=="):
-				consulted["strict"] = true
-				return sc.fails != "strict", true
+			case strings.Contains(atom, "octosql.Type.Is(octosql.Null"):
+				return false, true // non-nullable arguments in this scenario
 			}
 			return false, false
 		}
 		in.Hooks.Call = func(st *absint.State, call *ast.CallExpr, callee string, recv absint.Val, args []absint.Val) (absint.Val, bool) {
 			switch callee {
 			case "octosql.Type.Equals":
-				if strings.Contains(recv.Canon(), "OutputType") {
+				rc := recv.Canon()
+				if strings.Contains(rc, "OutputType") || strings.Contains(rc, "value:TypeFn(") {
 					consulted["output"] = true
 					return absint.Bool(sc.fails != "output"), true
 				}
-				if strings.Contains(recv.Canon(), "ArgumentTypes") {
+				if strings.Contains(rc, "ArgumentTypes") {
 					consulted["arg"] = true
 					return absint.Bool(sc.fails != "arg"), true
 				}
@@ -601,14 +623,18 @@ func checkRepopulate(c *core.Ctx) {
 				if !strings.HasSuffix(restored["Function"], ".Function") || !strings.HasSuffix(restored["TypeFn"], ".TypeFn") || !strings.Contains(restored["Function"], ".Descriptors[") {
 					bad = fmt.Sprintf("with an agreeing descriptor both Function and TypeFn must be restored from it (restored: %v)", restored)
 				}
-				for _, cr := range []string{"arity", "strict", "output", "arg"} {
+				need := []string{"arity", "strict", "output", "arg"}
+				if sc.typefn {
+					need = []string{"strict", "typefn", "output"}
+				}
+				for _, cr := range need {
 					if !consulted[cr] {
-						bad = fmt.Sprintf("the descriptor is accepted without comparing its %s: another overload's implementation may be attached", map[string]string{"arity": "number of arguments", "strict": "strictness", "output": "output type", "arg": "argument types"}[cr])
+						bad = fmt.Sprintf("the descriptor is accepted without consulting %s: another overload's implementation may be attached", map[string]string{"arity": "the number of arguments", "strict": "its strictness", "output": "its output type", "arg": "its argument types", "typefn": "its type function on the actual argument types (descriptors with a type function have no static signature on the wire: several of them look identical)"}[cr])
 					}
 				}
 			default:
 				if len(restored) > 0 {
-					bad = fmt.Sprintf("an implementation is attached although %s", sc.name)
+					bad = fmt.Sprintf("an implementation is attached although: %s", sc.name)
 				}
 				if !notOK {
 					bad = fmt.Sprintf("%s: the function call keeps a nil implementation, yet the result is reported as ok (%s is not set to false) — the predicate is accepted and crashes when evaluated", sc.name, okName)
@@ -620,6 +646,49 @@ func checkRepopulate(c *core.Ctx) {
 		}
 		c.Decide(bad == "", "REPOP", ckey, lit.Pos(), len(outs), "restored from an agreeing descriptor or reported not ok", bad)
 	}
+	// the typechecker takes the last descriptor accepting the arguments; repopulation must not stop at the first
+	lastWins := true
+	ast.Inspect(lit.Body, func(n ast.Node) bool {
+		rs, ok := n.(*ast.RangeStmt)
+		if !ok || !strings.Contains(core.ExprStr(rs.X), "Descriptors") {
+			return true
+		}
+		ast.Inspect(rs.Body, func(m ast.Node) bool {
+			if _, ok := m.(*ast.FuncLit); ok {
+				return false
+			}
+			if _, ok := m.(*ast.ReturnStmt); ok {
+				lastWins = false
+			}
+			return true
+		})
+		return true
+	})
+	tc := p.Func("logical", "(*FunctionExpression).Typecheck")
+	tcLast := false
+	if tc != nil {
+		ast.Inspect(tc.Decl.Body, func(n ast.Node) bool {
+			rs, ok := n.(*ast.RangeStmt)
+			if !ok || !strings.Contains(core.ExprStr(rs.X), "Descriptors") {
+				return true
+			}
+			hasBreak := false
+			for _, s := range rs.Body.List {
+				ast.Inspect(s, func(m ast.Node) bool {
+					if b, ok := m.(*ast.BranchStmt); ok && b.Tok == token.BREAK {
+						hasBreak = true
+					}
+					return true
+				})
+			}
+			if !hasBreak {
+				tcLast = true
+			}
+			return true
+		})
+	}
+	c.Decide(tc != nil && lastWins == tcLast, "REPOP", key+"/same choice as the typechecker", lit.Pos(), 1, "both take the last descriptor that accepts the arguments",
+		fmt.Sprintf("the typechecker and the repopulation must choose among several accepting descriptors the same way (typechecker: last wins=%v; repopulation: last wins=%v)", tcLast, lastWins))
 }
 
 // ---------------------------------------------------------------- JSON transport
